@@ -29,6 +29,18 @@ structure UnitType where
   spellingsSize : Nat
 deriving Repr, Inhabited
 
+/-- Compiler-reported layout facts of one instantiation `Q<T>` (sizeof, alignof, type traits). -/
+structure LayoutRow where
+  cls : Nat
+  fm : Fm
+  size : Nat
+  align : Nat
+  numSize : Nat
+  triviallyCopyable : Bool
+  standardLayout : Bool
+  polymorphic : Bool
+deriving Repr, Inhabited, DecidableEq
+
 /-- `std::map<K,V>::find(k)`: `none` models `end()`. -/
 def lookup {α β : Type} [DecidableEq α] (k : α) : List (α × β) → Option β
   | [] => none
